@@ -299,6 +299,28 @@ pub fn build_in_order<'b>(ctx: &types::Context<'b>, dag: &[Node], fam: Fam, orde
     Ok(built.into_iter().map(|b| b.unwrap()).collect())
 }
 
+/// Like `build_in_order`, but a rejected constructor call is repeated once in the same context; if the
+/// repetition is accepted, construction goes on. Returns the nodes and whether any call needed a retry.
+/// (A caller who ignores an error and tries again must not end up with an accepted ill-typed program.)
+pub fn build_in_order_retrying<'b>(ctx: &types::Context<'b>, dag: &[Node], fam: Fam, order: &[usize]) -> Result<(Vec<CNode<'b>>, bool), (usize, types::Error)> {
+    let mut built: Vec<Option<CNode<'b>>> = vec![None; dag.len()];
+    let mut retried = false;
+    for &i in order {
+        let node = {
+            let get = |c: u8| built[c as usize].clone().expect("child built before parent");
+            match build_node(ctx, dag[i], fam, &get, None) {
+                Ok(n) => n,
+                Err(_) => {
+                    retried = true;
+                    build_node(ctx, dag[i], fam, &get, None).map_err(|e| (i, e))?
+                }
+            }
+        };
+        built[i] = Some(node);
+    }
+    Ok((built.into_iter().map(|b| b.unwrap()).collect(), retried))
+}
+
 /// All linear extensions of the dependency order (children before parents).
 pub fn linear_extensions(dag: &[Node]) -> Vec<Vec<usize>> {
     let n = dag.len();
